@@ -300,6 +300,47 @@ func PanicSite(stack, repo string) (site, fn string) {
 	return "unknown", ""
 }
 
+// PanicKind classifies a panic value for violation keys (stable, no data).
+func PanicKind(msg string) string {
+	switch {
+	case strings.Contains(msg, "nil pointer dereference"):
+		return "nil-deref"
+	case strings.Contains(msg, "index out of range"), strings.Contains(msg, "slice bounds out of range"):
+		return "index-out-of-range"
+	case strings.Contains(msg, "interface conversion"):
+		return "type-assertion"
+	case strings.Contains(msg, "nil map"):
+		return "nil-map"
+	}
+	var b strings.Builder
+	for _, r := range msg {
+		switch {
+		case r >= 'a' && r <= 'z', r >= 'A' && r <= 'Z':
+			b.WriteRune(r)
+		case b.Len() > 0 && !strings.HasSuffix(b.String(), "-"):
+			b.WriteByte('-')
+		}
+		if b.Len() >= 48 {
+			break
+		}
+	}
+	return strings.Trim(b.String(), "-")
+}
+
+// PanicKey is the violation key of a panic: the goa function it started in
+// (line numbers move with every unrelated commit, function names do not), the
+// kind of panic and the dsl function at the top of the program stack.
+func PanicKey(stack, repo, msg, top string) (key, site string) {
+	site, fn := PanicSite(stack, repo)
+	if fn == "" {
+		fn = "unknown"
+	}
+	if top == "" {
+		top = "-"
+	}
+	return "panic:" + fn + ":" + PanicKind(msg) + ":" + top, site
+}
+
 func shortFunc(f string) string {
 	f = strings.TrimPrefix(f, "goa.design/goa/v3/")
 	return f
